@@ -32,6 +32,13 @@ def run(ctx):
     ctx.props("C02")
     n_seq = 120 if ctx.tier == "quick" else 5000
     cases = cc.gen_sequences(ctx, impl, n_seq, 30)
+    def reference(fname, v0, v1, app, body):
+        try:
+            return ref.encode_sub(fname, v0, v1, app, [(mn_of(impl, fname, n), lv) for n, lv in body])
+        except KeyError:
+            return None
+    hists = cc.gen_histories(ctx, impl, 40 if ctx.tier == "quick" else 1500)
+    cases += cc.run_histories(ctx, impl, hists, reference=reference)
     ctx.samples = [dict(flavour=c[0], version=[c[1], c[2]], app_id=c[3], body=c[4]) for c in cases[:2] + cases[-2:]]
     nbad = 0
     for c in cases:
@@ -40,7 +47,7 @@ def run(ctx):
             nbad += 1
             if nbad <= 20:
                 ctx.violation("bytes(Subroutine) differ from the reference encoding", bad, key=None)
-    mism = cc.correspond(ctx, impl, cases, [], oracle=False)
+    mism = cc.correspond(ctx, impl, cases, [], oracle=True)
     if mism and not ctx.violations:
         ctx.broken.append(f"correspondence Codec.encode_sub vs bytes(Subroutine): {len(mism)} differing cases, "
                           f"first: {str(mism[0])[:300]}")
